@@ -17,6 +17,9 @@ import (
 // []byte("clients") thereby become literals in key layouts. The initialiser
 // is not interpreted as a whole: only the value stored to the variable is
 // evaluated, and only if it is built from constants.
+// GlobalConst: the constant a never-reassigned package-level variable is initialised with.
+func (e *Engine) GlobalConst(key string) (term.ID, bool) { return e.globalConst(key) }
+
 func (e *Engine) globalConst(key string) (term.ID, bool) {
 	if e.globals == nil {
 		e.globals = map[string]term.ID{}
